@@ -163,3 +163,27 @@ Definition decode_cmp_varint_gen (fixed : bool) (b : list N) : vres Z :=
         else VOk (skipn len r) (if two63 <=? v then (Z.of_N v - Z.of_N two64)%Z else Z.of_N v)
   end.
 Definition decode_cmp_varint := decode_cmp_varint_gen true.
+
+(* ---------- composite keys built from the codecs ---------- *)
+
+(* internal/mockstore/mocktikv/mvcc_leveldb.go: mvccEncode / mvccDecode.
+   mvccEncode(key, ver) = EncodeBytes(key) ++ EncodeUintDesc(ver); a bare EncodeBytes(key) is the "meta key". *)
+Definition mvcc_encode (key : list N) (ver : N) : list N := encode_bytes key ++ encode_uint_desc ver.
+
+Inductive mres := MErr | MOk (key : list N) (ver : N).
+Definition mvcc_decode (b : list N) : mres :=
+  match decode_bytes b with
+  | None => MErr
+  | Some ([], key) => MOk key 0
+  | Some (rest, key) =>
+      match decode_uint_desc rest with
+      | None => MErr
+      | Some ([], ver) => MOk key ver
+      | Some (_ :: _, _) => MErr
+      end
+  end.
+
+(* internal/apicodec/mem_codec.go: memComparableCodec.encodeKey / decodeKey (the leftover is dropped) *)
+Definition mem_encode_key (key : list N) : list N := encode_bytes key.
+Definition mem_decode_key (b : list N) : option (list N) :=
+  match decode_bytes b with None => None | Some (_, key) => Some key end.
